@@ -80,7 +80,7 @@ def main():
     m = {
         "version": 1,
         "setup_cmd": "./setup.sh",
-        "notes": "All checks are run by ./check <id> <tier>, which rebuilds the harness crate (harness/, path-dependency on /repo with --cfg brc20_prog_verif) and then runs the proptest-driven binary. VERIF_SEED selects the PRNG seed. Known findings: KNOWN_FINDINGS.txt.",
+        "notes": "All checks are run by ./check <id> <tier>, which rebuilds the harness crate (harness/, path-dependency on /repo with --cfg brc20_prog_verif) and then runs the proptest-driven binary; generated cases are spread over 16 worker processes. VERIF_SEED selects the PRNG seed. Exit 0 held / 1 VIOLATION line / 2 inconclusive (watchdog, build problem, generator health). Known findings and repaired defects: KNOWN_FINDINGS.txt; regression and known-finding reproductions: replays/; sensitivity material: mutants/, seeded/ (DESIGN.md section 7). ./run_all_quick.sh runs the whole quick tier, ./baseline_off.sh the pinned suite with the guard off.",
         "hooks": {
             "guard": "--cfg brc20_prog_verif (rustc cfg, set in harness/.cargo/config.toml)",
             "enable": "cd /verif/harness && cargo build  (rustflags = [\"--cfg\", \"brc20_prog_verif\"]; brc20-prog is a path dependency on /repo)",
